@@ -126,7 +126,8 @@ def search(ctx):
     """C09 predicates on the implementation (no model): requested duration returned by every concealment / FEC call whatever the
     loss pattern and call shape, finite output, concealed peak <= peak x level before the loss, level of every output channel 1 s / 2 s
     into a sustained loss <= decay / decay2 x its pre-loss level, every frame rebuilt from LBRR data within fecframe x max(frame level,
-    concealment error), re-convergence to the loss-free twin 400 ms after packets resume, every received packet decodes
+    concealment error), re-convergence to the loss-free twin 400 ms after packets resume and, on soft-burst / pause / loud-onset
+    streams with the loss at the end of the soft burst, in EVERY 5 ms window until >= 1 s after the loss (reconvw), every received packet decodes
     with the encoder's final range, opus_packet_has_lbrr == LBRR flag decoded by silk_Decode, FEC error energy <= fecratio x
     PLC error energy where concealment fails; thresholds from tools/props/C09_calib.json."""
     k, b = (8, 10) if ctx.quick else (12, 60)
